@@ -91,8 +91,19 @@ def _hook(name, args):
         _inhook[0] = False
 
 
+_unraisable = [0]
+
+
+def _on_unraisable(u):
+    """An exception raised where Python cannot propagate it (the time guard or a RecursionError landing inside the audit hook) is printed by the
+    interpreter WITH a traceback - and printing a traceback opens and parses source files, i.e. raises `open`/`compile` audit events while the
+    monitor is armed, on top of whatever tally frame happened to be running. Count it instead of printing it."""
+    _unraisable[0] += 1
+
+
 def arm():
     if not _hook_installed[0]:
+        sys.unraisablehook = _on_unraisable
         # pre-warm tally's own lazy imports so they do not show up as events
         import difflib  # noqa
         from tally import expr_parser, merchant_engine, merchant_utils, section_engine, modifier_parser  # noqa
